@@ -2748,6 +2748,12 @@ def _rule_wrappers_forward_advertised(repo: Repo, R: Report) -> None:
                         R.ok(r, rel, lqn, f"{norm(c)[:70]} (the whole resolved mapping / an unrestricted selection is handed on)")
                         continue
                     known = set(adv) | fwd
+                    # a selection bounded only by another collection read off the wrapped element (not one of the
+                    # advertised ones) may well contain the advertised names: absence is not provable
+                    opaque = sorted(f for f in fwd - set(adv) if ns.is_local(f) and (ns.deps(f) | {f}) & elem_names)
+                    if opaque and not (set(adv) & fwd):
+                        R.ok(r, rel, lqn, f"{norm(c)[:60]} (selection bounded by `{opaque[0]}`, itself taken from the wrapped element: not decided)")
+                        continue
                     missing = sorted(m for m in adv - fwd if ns.is_local(m) and (ns.deps(m) | {m}) & elem_names and not ((ns.deps(m) & known) - {m}))
                     what = ""
                     if missing:
